@@ -102,6 +102,17 @@ func runCrashCase(c *core.Ctx, sig, work string, cfg crashConfig, idx int, name 
 	}
 	out, timedOut, _ := runChild(limit, prefix, c.ID, "--child-crash", specPath)
 	if timedOut {
+		// the watchdog fired (loaded machine, strace -f on a syncing workload): one more try in a
+		// fresh directory with a generous limit before the case counts as inconclusive
+		c.Count("crash.child_watchdog_retries", 1)
+		os.RemoveAll(filepath.Dir(specPath))
+		s, specPath = newCrashSpec(c, work, cfg, idx, name+"-retry")
+		s.KillAt, s.KillClass = killAt, killClass
+		writeSpec(s, specPath)
+		defer os.RemoveAll(filepath.Dir(specPath))
+		out, timedOut, _ = runChild(4*limit, prefix, c.ID, "--child-crash", specPath)
+	}
+	if timedOut {
 		c.Inconclusive(fmt.Sprintf("workload child timed out (%s, kill at %d %s)", cfg.name, killAt, killClass))
 		c.Sample(map[string]any{"timeout_output_tail": tailStr(out, 3000)})
 		return nil, false
